@@ -1,6 +1,7 @@
 #!/usr/bin/env python3
 """C20: syntactic typing / guard discipline over the SANY semantic tree of the shipped TLA+ specs.
 Nothing is evaluated or model-checked: tla2sany.xml.XMLExporter only parses and resolves the modules."""
+import re
 import sys, os, json, subprocess, tempfile, shutil, time, argparse
 import xml.etree.ElementTree as ET
 
@@ -889,7 +890,8 @@ def guard_rules(ctx, rhs, env, guards, action, init, where):
                 clauses = dnf(("and", [nnf(m, g, pol, ctx.get("psub")) for g, pol in guards]))
             except Undecided as e:
                 res.fail("TLA-GUARD", spec + "/" + action + "/view-guard", where, "UNDECIDED: %s" % e); continue
-            wantcv = lambda body: '"ChangeView' in body
+            # ... of ONE stage: a quorum mixed from several kinds of ChangeView message excludes nothing
+            wantcv = lambda body: len(set(re.findall(r'"(ChangeView\w*)"', body))) == 1
             missing = []
             for cl in clauses:
                 if any(quorum_atom(a, wantcv) in (0, 1) for a in cl): continue
@@ -899,16 +901,27 @@ def guard_rules(ctx, rhs, env, guards, action, init, where):
             it = flat(m, idx) if idx is not None else "r"
             hypkey = '$RcdSelect($FcnApply(rmState,%s),"type")' % it
             conj = [g for g, pol in guards if pol]
+            locks = []
             for state in SPEC_LOCKS.get(spec, []):
                 if not any(ev3(m, g, {hypkey: state}) is False for g in conj):
-                    missing.append("lock: the action is enabled for a node in state %s" % state)
+                    locks.append((state, "lock: the action is enabled for a node in state %s" % state))
             if spec in OWN_COMMIT_LOCK:
                 def nocommit(a):
                     return a[1] in ("\\leq", "=", "<") and a[2].startswith("Cardinality(") and '"Commit"' in a[2] and a[3] in ("0", "1") and not (a[1] == "<" and a[3] == "0") and not (a[1] == "\\leq" and a[3] == "1") and not (a[1] == "=" and a[3] == "1")
                 if not any(nocommit(a) for cl in clauses for a in cl):
                     missing.append("commit lock: no alternative requires that the node has not sent its own Commit")
-            if not missing: res.ok("TLA-GUARD", "%s %s: view increase rests on a ChangeView quorum / the leader's message in each of %d alternatives; locks %s" % (spec, action, len(clauses), SPEC_LOCKS.get(spec, [])))
-            else: res.fail("TLA-GUARD", spec + "/" + action + "/view-guard", where, "view-increasing action lost its guard: " + "; ".join(missing))
+                else:
+                    # ... and EVERY alternative does: a lock that binds the backups only lets a primary that has committed
+                    # change its view and commit again
+                    for cl in clauses:
+                        if not any(nocommit(a) for a in cl):
+                            locks.append(("own-commit", "commit lock: the alternative {%s} does not require that the node has not sent its own Commit" % " ; ".join(a[4][:60] for a in cl)))
+                            break
+            if not missing and not locks: res.ok("TLA-GUARD", "%s %s: view increase rests on a ChangeView quorum / the leader's message in each of %d alternatives; locks %s" % (spec, action, len(clauses), SPEC_LOCKS.get(spec, [])))
+            if missing: res.fail("TLA-GUARD", spec + "/" + action + "/view-guard", where, "view-increasing action lost its guard: " + "; ".join(missing))
+            # each lock is a finding of its own (so that a recorded finding about one never hides the loss of another guard)
+            for key, text in locks:
+                res.fail("TLA-GUARD", spec + "/" + action + "/view-lock:" + key, where, "a node that has committed can still increase its view: " + text)
 
 # states in which a node must not change its view, per spec (confirmed by reading each spec: the two dBFT 2.1 drafts
 # deliberately have no commit lock — stage III "gives the ability to escape from the commit phase" — the multipool model
@@ -916,7 +929,7 @@ def guard_rules(ctx, rhs, env, guards, action, init, where):
 SPEC_LOCKS = {
     "dbft/dbft.tla": ["commitSent"],
     "dbft_antiMEV/dbft.tla": ["commitSent", "commitAckSent"],
-    "dbft2.1_threeStagedCV/dbftCV3.tla": ["blockAccepted"],
+    "dbft2.1_threeStagedCV/dbftCV3.tla": ["blockAccepted", "commitSent"],
 }
 OWN_COMMIT_LOCK = {"dbftMultipool/dbftMultipool.tla"}
 
